@@ -352,6 +352,9 @@ Definition src_inplace : bool :=
 (* Store.delete: saveIndex before storage.Delete *)
 Definition src_unlink_first : bool :=
   negb (list_eqb str_eqb calls_delete [b "s.saveIndex"; b "s.storage.Delete"]).
+(* Store.GC: rebuild the maps, save index.json, only then remove blob files *)
+Definition src_gc_order_ok : bool :=
+  list_eqb str_eqb calls_gc [b "s.gcIndex"; b "s.saveIndex"; b "os.Remove"].
 (* Store.Push: the blob is stored before it is tagged; Storage.Push: ingest then rename;
    ingest: create temp, copy+verify, chmod *)
 Definition src_push_order_ok : bool :=
